@@ -302,8 +302,193 @@ fn boundary_straddles(ctx: &mut Ctx, ring: &Ring) {
     }
 }
 
+/// parse one packet stream and, for everything that parses, ask for its lengths and write it back
+fn parse_and_write_back(data: &[u8]) -> usize {
+    use pgp::packet::PacketTrait;
+    let mut n = 0usize;
+    for p in PacketParser::new(data) {
+        n += 1;
+        if n > 64 {
+            break;
+        }
+        if let Ok(p) = p {
+            let _ = p.write_len();
+            let _ = p.write_len_with_header();
+            let _ = p.to_bytes();
+            let mut out = Vec::new();
+            let _ = p.to_writer_with_header(&mut out);
+        }
+    }
+    n
+}
+
+/// (a) every packet tag with EVERY body of up to five octets over a small alphabet of meaningful
+/// octets (version numbers, algorithm ids, small lengths, 0x80, 0xff): the corners of every packet
+/// parser (a length field of 0..4 in front of nothing, a version octet and then the end);
+/// (b) well-formed template packets of every kind with each of their first octets set to every value
+fn tiny_and_octet_sweeps(ctx: &mut Ctx) {
+    use crate::wire;
+    let site = "PacketParser -> write_len / to_bytes on tiny packet bodies and one-octet field sweeps";
+    let alphabet: &[u8] = if ctx.thorough() { &[0, 1, 2, 3, 4, 5, 6, 7, 16, 0x80, 0xff] } else { &[0, 1, 2, 3, 4, 6, 0xff] };
+    let tags: Vec<u8> = (1u8..=21).chain([60, 63]).collect();
+    for &tag in &tags {
+        for len in 0..=5usize {
+            let total = alphabet.len().pow(len as u32);
+            let mut failed = false;
+            for mut k in 0..total {
+                let mut body = Vec::with_capacity(len);
+                for _ in 0..len {
+                    body.push(alphabet[k % alphabet.len()]);
+                    k /= alphabet.len();
+                }
+                let pkt = wire::packet(tag, &body);
+                let r = guard(|| parse_and_write_back(&pkt));
+                if r.is_err() && !failed {
+                    // report the first panicking body of this (tag, length); the rest of the class is counted
+                    failed = true;
+                    no_panic(ctx, site, &format!("tag={tag} body={}", hx(&body)), &r, Instant::now());
+                } else if r.is_err() {
+                    ctx.stat(&format!("tiny:panic:tag{tag}"));
+                }
+            }
+            // one oracle evaluation per (tag, length) class when nothing panicked
+            if !failed {
+                let ok: Result<usize, String> = Ok(total);
+                no_panic(ctx, site, &format!("tag={tag} all {total} bodies of {len} octets over {alphabet:?}"), &ok, Instant::now());
+            }
+            ctx.stat_n("tiny:bodies", total as u64);
+        }
+    }
+    // (b) templates
+    let keyid = [1u8, 2, 3, 4, 5, 6, 7, 8];
+    let fp6 = [0x5Au8; 32];
+    let templates: Vec<(&str, Vec<u8>)> = vec![
+        ("pkesk3-rsa", wire::packet(1, &wire::pkesk_v3(keyid, 1, &wire::mpi(&[0x7F; 32])))),
+        ("pkesk6-x25519", wire::packet(1, &wire::pkesk_v6(Some((6, &fp6)), None, 25, &[[9u8; 32].as_slice(), &[24u8], &[7u8; 24]].concat()))),
+        ("pkesk6-rsa", wire::packet(1, &wire::pkesk_v6(Some((4, &[0x4Bu8; 20])), None, 1, &wire::mpi(&[0x7F; 32])))),
+        ("skesk4", wire::packet(3, &wire::skesk_v4(7, &wire::s2k(3, 8, &[1; 8], 96, [0; 3], &[]), &[]))),
+        ("skesk6", wire::packet(3, &wire::skesk_v6(None, 7, 2, None, &wire::s2k(3, 8, &[1; 8], 96, [0; 3], &[]), &[2; 15], &[3; 32]))),
+        ("ops3", wire::packet(4, &wire::ops_v3(0, 8, 22, keyid, 1))),
+        ("ops6", wire::packet(4, &wire::ops_v6(0, 8, 27, &[4; 16], None, &fp6, 1))),
+        ("sig4", wire::packet(2, &wire::sig_v4(4, 0, 22, 8, &wire::subpacket_min(2, &[0x60, 0, 0, 1]), &wire::subpacket_min(16, &keyid), [1, 2], None, &[wire::mpi(&[0x7F; 32]), wire::mpi(&[0x7E; 32])].concat()))),
+        ("sig6", wire::packet(2, &wire::sig_v4(6, 0, 27, 8, &wire::subpacket_min(2, &[0x60, 0, 0, 1]), &[], [1, 2], Some(&[5; 16]), &[6; 64]))),
+        ("pub4-ed25519legacy", wire::packet(6, &wire::key_public(4, [0x60, 0, 0, 1], [0, 0], 22, &[&[9u8, 0x2B, 6, 1, 4, 1, 0xDA, 0x47, 0x0F, 1][..], &wire::mpi(&[&[0x40u8][..], &[7u8; 32]].concat())].concat(), None))),
+        ("pub6-x25519", wire::packet(6, &wire::key_public(6, [0x60, 0, 0, 1], [0, 0], 25, &[8u8; 32], Some(32)))),
+        ("uattr-image", wire::packet(17, &[&[0x15u8, 1, 0x10, 0, 1, 1][..], &[0u8; 12], &[0xFF, 0xD8, 0xFF]].concat())),
+        ("seipd2", wire::packet(18, &wire::seipd_v2(7, 2, 0, &[1; 32], &[2; 40]))),
+        ("literal", wire::packet(11, &wire::literal(b'b', b"n", None, [0, 0, 0, 0], b"data"))),
+    ];
+    for (name, t) in &templates {
+        let upto = t.len().min(if ctx.thorough() { 64 } else { 48 });
+        let mut first_panic: Option<(usize, u8, String)> = None;
+        let mut panics = 0u64;
+        for off in 0..upto {
+            for v in 0..=255u8 {
+                if t[off] == v {
+                    continue;
+                }
+                let mut m = t.clone();
+                m[off] = v;
+                if let Err(p) = guard(|| parse_and_write_back(&m)) {
+                    panics += 1;
+                    if first_panic.is_none() {
+                        first_panic = Some((off, v, p));
+                    }
+                }
+            }
+        }
+        match first_panic {
+            Some((off, v, p)) => {
+                let mut m = t.clone();
+                m[off] = v;
+                let r: Result<usize, String> = Err(p);
+                no_panic(ctx, site, &format!("template={name} offset={off} value={v} ({panics} panicking variants) packet={}", hx(&m)), &r, Instant::now());
+            }
+            None => {
+                let ok: Result<usize, String> = Ok(0);
+                no_panic(ctx, site, &format!("template={name}: every value of each of the first {upto} octets"), &ok, Instant::now());
+            }
+        }
+        ctx.stat_n("octet_sweep:variants", (upto * 255) as u64);
+    }
+}
+
+/// SEIPDv2 containers (literal packet + padding packet inside) written with partial body lengths and
+/// CUT at every chunk boundary / partial-body boundary, without a final length: the reader below the
+/// decryptor fails while the message reader looks for trailing packets (D4m)
+fn partial_cut_containers(ctx: &mut Ctx) {
+    use pgp::composed::PlainSessionKey;
+    use pgp::packet::{SymEncryptedProtectedData, SymEncryptedProtectedDataConfig};
+    let site = "Message::from_bytes -> decrypt_with_session_key -> read_to_end (partial-length container cut short)";
+    let mut rng = ChaCha8Rng::seed_from_u64(ctx.seed ^ 0xC04D);
+    let key = [7u8; 16];
+    let new_len = |n: usize| -> Vec<u8> {
+        if n < 192 { vec![n as u8] } else if n < 8384 { let m = n - 192; vec![(m >> 8) as u8 + 192, m as u8] } else { let mut v = vec![255]; v.extend_from_slice(&(n as u32).to_be_bytes()); v }
+    };
+    for lit_total in [64usize, 512, 576, 1024] {
+        for pad_len in [0usize, 100, 1000] {
+            let data_len = lit_total - 1 - new_len(lit_total - 3).len().max(1) - 6;
+            let mut lit = vec![b'b', 0, 0, 0, 0, 0];
+            lit.extend(std::iter::repeat(b'x').take(data_len));
+            let mut inner = vec![0xCB];
+            inner.extend(new_len(lit.len()));
+            inner.extend(&lit);
+            if pad_len > 0 {
+                inner.push(0xC0 | 21);
+                inner.extend(new_len(pad_len));
+                inner.extend((0..pad_len).map(|i| i as u8));
+            }
+            let Ok(Ok(pkt)) = guard(|| SymEncryptedProtectedData::encrypt_seipdv2(&mut rng, SymmetricKeyAlgorithm::AES128, AeadAlgorithm::Ocb, ChunkSize::C64B, &key, &inner)) else { continue };
+            let mut body = vec![2u8, 7, 2, 0];
+            if let SymEncryptedProtectedDataConfig::V2 { salt, .. } = pkt.config() {
+                body.extend_from_slice(salt);
+            }
+            body.extend_from_slice(pkt.data());
+            let mut cuts: Vec<usize> = (1..=(body.len() - 36) / 80).map(|k| 36 + k * 80).collect();
+            cuts.extend([body.len() - 16, body.len() - 1, body.len()]);
+            if !ctx.thorough() {
+                cuts = cuts.into_iter().step_by(2).collect();
+            }
+            for cut in cuts {
+                if cut < 512 || cut > body.len() {
+                    continue;
+                }
+                let b = &body[..cut];
+                // partial framing: 512, then the rest in decreasing powers of two, NO final length
+                let mut msg = vec![0xC0 | 18];
+                let mut sizes = vec![512usize];
+                let mut rest = b.len() - 512;
+                for k in (0..=12).rev() {
+                    let s = 1usize << k;
+                    while rest >= s {
+                        sizes.push(s);
+                        rest -= s;
+                    }
+                }
+                let mut pos = 0usize;
+                for s in &sizes {
+                    msg.push(224 + s.trailing_zeros() as u8);
+                    msg.extend_from_slice(&b[pos..pos + s]);
+                    pos += s;
+                }
+                let t = Instant::now();
+                let r = guard(|| {
+                    let m = Message::from_bytes(&msg[..]).map_err(|e| e.to_string())?;
+                    let mut d = m.decrypt_with_session_key(PlainSessionKey::V6 { key: key.to_vec().into() }).map_err(|e| e.to_string())?;
+                    let mut out = Vec::new();
+                    d.read_to_end(&mut out).map_err(|e| e.to_string())
+                });
+                no_panic(ctx, site, &format!("literal packet of {lit_total} octets + padding {pad_len}, container body cut at {cut} of {}, partial framing, msg_cksum={}", body.len(), crate::frame::cksum(&msg)), &r, t);
+                ctx.stat("partial_cut_container");
+            }
+        }
+    }
+}
+
 pub fn run(ctx: &mut Ctx, ring: &Ring) {
     let mut rng = ChaCha8Rng::seed_from_u64(ctx.seed ^ 0xC04C);
+    partial_cut_containers(ctx);
+    tiny_and_octet_sweeps(ctx);
     boundary_straddles(ctx, ring);
     read_after_error(ctx);
     message_sweeps(ctx, &mut rng);
